@@ -15,9 +15,11 @@
                                                     (tsrcs: [[dtype code; values]...]; dtype codes: 1 bool, n intn,
                                                     100+n uintn, 200+n floatn, 300+n Sn; backing 0 memory / 1 HDF5)
    13 [13; [case; ...]]                             a history: the cases one after the other on the same Session
+   lu / ru carry the TYPE FORM of the hint (Model/FlagForm.v flag_of_wire): 0/1 Python bool, 10+v numpy bool, 20+z Python
+   int, 30+z numpy integer, 40+v 0-d boolean array.
    pandas.merge is instantiated with the relational join of Spec/JoinSpec.v (its assumed behaviour). *)
 From Coq Require Import ZArith List Bool.
-From EV Require Import Res Arr Val Join JoinSpec MapStream MapStreamSpec SessionMerge SessionMergeSpec SessionMergeTyped.
+From EV Require Import Res Arr Val Join JoinSpec MapStream MapStreamSpec SessionMerge SessionMergeSpec SessionMergeTyped FlagForm.
 Import ListNotations.
 Open Scope Z_scope.
 
@@ -127,8 +129,8 @@ Definition entry_C19_one (v:val) : val :=
     match as_list l, as_list r, as_list2 srcs, form_of fm, as_list2 sinks0, mapk_of mk with
     | Some L, Some R, Some srcs, Some fm, Some sinks0, Some mk =>
       VL [ of_res (fun o => VL [vopt_cols (oml_ret o); vopt_cols (oml_sinks o); vopt vlist (oml_map o)])
-                  (ordered_merge_left (if ver =? 0 then Orig else Fixed) cs L R srcs fm sinks0 mk
-                                      (as_flag lu) (as_flag ru));
+                  (ordered_merge_left_pf (if ver =? 0 then Orig else Fixed) cs L R srcs fm sinks0 mk
+                                         (flag_of_wire lu) (flag_of_wire ru));
            vlist2 (map (left_payload 0 L R) srcs) ]
     | _, _, _, _, _, _ => vbad
     end
@@ -136,7 +138,7 @@ Definition entry_C19_one (v:val) : val :=
     match as_list l, as_list r, as_list2 lsrcs, as_list2 rsrcs, form_of fm, as_list2 lsinks0, as_list2 rsinks0 with
     | Some L, Some R, Some lsrcs, Some rsrcs, Some fm, Some ls0, Some rs0 =>
       VL [ of_res (fun o => match o with (ret, ls, rs) => VL [vomi_ret ret; vopt_cols ls; vopt_cols rs] end)
-                  (ordered_merge_inner L R lsrcs rsrcs fm ls0 rs0 (as_flag lu) (as_flag ru));
+                  (ordered_merge_inner_pf L R lsrcs rsrcs fm ls0 rs0 (flag_of_wire lu) (flag_of_wire ru));
            VL [vlist2 (map (inner_payload_l 0 L R) lsrcs); vlist2 (map (inner_payload_r 0 L R) rsrcs)] ]
     | _, _, _, _, _, _, _ => vbad
     end
@@ -168,8 +170,8 @@ Definition entry_C19_one (v:val) : val :=
     match as_list l, as_list r, as_tcols tsrcs, form_of fm, as_dtypes dts, as_list2 sinks0, mapk_of mk with
     | Some L, Some R, Some srcs, Some fm, Some dts, Some sinks0, Some mk =>
       VL [ of_res (fun o => VL [vopt_tcols (toml_ret o); vopt_tcols (toml_sinks o); vopt vlist (toml_map o)])
-                  (ordered_merge_left_t cs L R srcs fm dts sinks0 mk (as_flag lu) (as_flag ru)
-                                        (if bk =? 0 then BMem else BH5));
+                  (ordered_merge_left_t_pf cs L R srcs fm dts sinks0 mk (flag_of_wire lu) (flag_of_wire ru)
+                                           (if bk =? 0 then BMem else BH5));
            vlist2 (map (left_payload 0 L R) (map snd srcs)) ]
     | _, _, _, _, _, _, _ => vbad
     end
